@@ -25,6 +25,7 @@ import (
 
 	"dvh/internal/c09store"
 	"dvh/internal/corekit"
+	"dvh/internal/crashstore"
 	"dvh/internal/memstore"
 	"dvh/internal/tr"
 
@@ -139,6 +140,15 @@ func (w *c09World) snapshot() map[string]string {
 		out[w.absKey(k)] = w.c09Val(k, v)
 	}
 	return out
+}
+
+func c09SortedRaw(m map[string][]byte) []string {
+	ks := make([]string, 0, len(m))
+	for k := range m {
+		ks = append(ks, k)
+	}
+	sort.Strings(ks)
+	return ks
 }
 
 func c09SortedKeys(m map[string]string) []string {
@@ -387,6 +397,7 @@ func c09History(c *ctx) error {
 	// content pool shared by all repositories (overlapping blobs)
 	contents := [][]byte{[]byte("1"), tr.GenBytes(c.seed+7, 100), tr.GenBytes(c.seed+8, 200), {}, []byte("22")}
 	visible := map[string][]string{}
+	leftover := map[string]bool{}
 	for _, n := range names {
 		nb := c.rng.Intn(5)
 		c.w.Count(fmt.Sprintf("bundles_per_repo=%d", nb))
@@ -404,6 +415,7 @@ func c09History(c *ctx) error {
 			if c.rng.Intn(7) == 0 {
 				// an interrupted upload: the file lists exist, the descriptor was never written
 				w.env.Meta.RemoveRaw(model.GetArchivePathToBundle(n, id))
+				leftover[n] = true
 				c.w.Count("leftover_bundle")
 			} else {
 				visible[n] = append(visible[n], id)
@@ -415,6 +427,62 @@ func c09History(c *ctx) error {
 			if err := w.label(n, c09Pick(c, c09LabelNames), c09Pick(c, visible[n])); err != nil {
 				return fmt.Errorf("label failed: %v", err)
 			}
+		}
+	}
+	// crash and re-run: DeleteRepo dies at its k-th store write (landed or not), the command is run
+	// again on healthy stores: nothing of the repository remains, the other repositories are untouched
+	// (repositories holding leftovers of interrupted uploads are left out: those stay, by construction)
+	for _, n := range names {
+		if leftover[n] || c.rng.Intn(2) == 0 {
+			continue
+		}
+		probe := w.clone()
+		pg := &crashstore.Group{}
+		pst := corekit.WithStores(probe.env.Wal, probe.env.ReadLog, crashstore.Wrap(pg, "blob", probe.env.Blob), crashstore.Wrap(pg, "meta", probe.env.Meta), crashstore.Wrap(pg, "vmeta", probe.env.VMeta))
+		if corekit.Recover(func() error { return core.DeleteRepo(n, pst) }) != nil {
+			continue
+		}
+		total := pg.Count()
+		before := w.env.Meta.Snapshot()
+		for k, v := range w.env.VMeta.Snapshot() {
+			before[k] = v
+		}
+		for k := 1; k <= total; k++ {
+			if total > 10 && c.rng.Intn(total) >= 10 {
+				continue
+			}
+			y := w.clone()
+			landed := c.rng.Bool()
+			g := &crashstore.Group{CrashAt: k, Landed: landed}
+			yst := corekit.WithStores(y.env.Wal, y.env.ReadLog, crashstore.Wrap(g, "blob", y.env.Blob), crashstore.Wrap(g, "meta", y.env.Meta), crashstore.Wrap(g, "vmeta", y.env.VMeta))
+			_ = corekit.Recover(func() error { return core.DeleteRepo(n, yst) })
+			_ = corekit.Recover(func() error { return core.DeleteRepo(n, y.env.Stores) })
+			after := y.env.Meta.Snapshot()
+			for kk, v := range y.env.VMeta.Snapshot() {
+				after[kk] = v
+			}
+			got := "clean"
+			for _, kk := range c09SortedRaw(after) {
+				if apc, err := model.GetArchivePathComponents(kk); err == nil && apc.Repo == n {
+					got = "leftover:" + tr.Esc(y.absKey(kk))
+					break
+				}
+			}
+			for kk, v := range before {
+				apc, err := model.GetArchivePathComponents(kk)
+				if err == nil && apc.Repo == n {
+					continue
+				}
+				if string(after[kk]) != string(v) {
+					got = "other-changed:" + tr.Esc(y.absKey(kk))
+				}
+			}
+			ld := 0
+			if landed {
+				ld = 1
+			}
+			c.w.Op(fmt.Sprintf("deletecr repo=%s at=%d of=%d landed=%d got=%s", tr.Esc(n), k, total, ld, got), "sound")
+			c.w.Count("delete-crash-rerun")
 		}
 	}
 	nScen := 3 + c.rng.Intn(3)
